@@ -154,6 +154,62 @@ def mulDekkerScale (xmb zb oneb cb invb nb : Nat) : List Node := [
   ⟨.add, [44, 45], 0⟩ ]       -- 46
 def mulDekkerScaleOuts : List Nat := [2, 46]
 
+/-- fpa.mul_dekker(x, y, scale=True, fix_overflow=True) -/
+def mulDekkerScaleFix (xmb zb oneb cb invb nb lb : Nat) : List Node := [
+  ⟨.input, [], 1⟩,            -- 0: y
+  ⟨.abs, [0], 0⟩,             -- 1
+  ⟨.const, [], xmb⟩,          -- 2
+  ⟨.gt, [1, 2], 0⟩,           -- 3
+  ⟨.const, [], zb⟩,           -- 4
+  ⟨.lt, [0, 4], 0⟩,           -- 5
+  ⟨.neg, [2], 0⟩,             -- 6
+  ⟨.select, [5, 6, 2], 0⟩,    -- 7
+  ⟨.const, [], oneb⟩,         -- 8
+  ⟨.lt, [1, 8], 0⟩,           -- 9
+  ⟨.const, [], cb⟩,           -- 10
+  ⟨.const, [], invb⟩,         -- 11
+  ⟨.mul, [0, 11], 0⟩,         -- 12
+  ⟨.select, [9, 0, 12], 0⟩,   -- 13: y_n
+  ⟨.mul, [10, 13], 0⟩,        -- 14
+  ⟨.sub, [14, 13], 0⟩,        -- 15
+  ⟨.sub, [14, 15], 0⟩,        -- 16: gd_y
+  ⟨.const, [], nb⟩,           -- 17
+  ⟨.mul, [17, 16], 0⟩,        -- 18
+  ⟨.select, [9, 16, 18], 0⟩,  -- 19
+  ⟨.select, [3, 7, 19], 0⟩,   -- 20: yh
+  ⟨.input, [], 0⟩,            -- 21: x
+  ⟨.abs, [21], 0⟩,            -- 22
+  ⟨.gt, [22, 2], 0⟩,          -- 23
+  ⟨.lt, [21, 4], 0⟩,          -- 24
+  ⟨.select, [24, 6, 2], 0⟩,   -- 25
+  ⟨.lt, [22, 8], 0⟩,          -- 26
+  ⟨.mul, [11, 21], 0⟩,        -- 27
+  ⟨.select, [26, 21, 27], 0⟩, -- 28: x_n
+  ⟨.mul, [10, 28], 0⟩,        -- 29
+  ⟨.sub, [29, 28], 0⟩,        -- 30
+  ⟨.sub, [29, 30], 0⟩,        -- 31: gd_x
+  ⟨.mul, [31, 17], 0⟩,        -- 32
+  ⟨.select, [26, 31, 32], 0⟩, -- 33
+  ⟨.select, [23, 25, 33], 0⟩, -- 34: xh
+  ⟨.mul, [20, 34], 0⟩,        -- 35: yh*xh
+  ⟨.abs, [35], 0⟩,            -- 36
+  ⟨.const, [], lb⟩,           -- 37: largest
+  ⟨.gt, [36, 37], 0⟩,         -- 38: overflow
+  ⟨.mul, [0, 21], 0⟩,         -- 39: y*x
+  ⟨.select, [38, 39, 39], 0⟩, -- 40: xyh
+  ⟨.sub, [0, 20], 0⟩,         -- 41: yl
+  ⟨.mul, [34, 41], 0⟩,        -- 42: xh*yl
+  ⟨.neg, [39], 0⟩,            -- 43
+  ⟨.add, [35, 43], 0⟩,        -- 44: t1
+  ⟨.add, [42, 44], 0⟩,        -- 45: t2
+  ⟨.sub, [21, 34], 0⟩,        -- 46: xl
+  ⟨.mul, [20, 46], 0⟩,        -- 47: yh*xl
+  ⟨.add, [45, 47], 0⟩,        -- 48: t3
+  ⟨.mul, [41, 46], 0⟩,        -- 49: yl*xl
+  ⟨.add, [48, 49], 0⟩,        -- 50
+  ⟨.select, [38, 4, 50], 0⟩ ] -- 51
+def mulDekkerScaleFixOuts : List Nat := [40, 51]
+
 /-- fpa.mul_dekker(x, y, scale=False, fix_overflow=True):  overflow = |xh*yh| > largest;
 xyh = select(overflow, x*y, xyh); xyl = select(overflow, 0, xyl) -/
 def mulDekkerFix (cb lb zb : Nat) : List Node := [
